@@ -194,6 +194,9 @@ func (b *bitstream) Next() error {
 
 	// Structs with a length code of 1 are a special case. Their length is always encoded
 	// as a VarUInt and their field names appear in ascending symbol ID order.
+	// From here on 'length' is the real length, not the tag's low nibble, so the nibble's
+	// special values (14: length follows, 15: null) no longer apply to it.
+	lengthIsNibble := true
 	if code == bitcodeStruct && length == 1 {
 		length, _, err = b.readVarUintLen(b.remaining())
 		if err != nil {
@@ -203,6 +206,7 @@ func (b *bitstream) Next() error {
 			// Ordered structs must have at least one symbol/value pair.
 			return &SyntaxError{"ordered structs cannot be empty", b.pos - 1}
 		}
+		lengthIsNibble = false
 	}
 
 	if code == bitcodeNone {
@@ -242,7 +246,7 @@ func (b *bitstream) Next() error {
 		}
 	}
 
-	if length == 0x0F {
+	if lengthIsNibble && length == 0x0F {
 		// This value is actually a null.
 		b.code = code
 		b.null = true
@@ -253,7 +257,7 @@ func (b *bitstream) Next() error {
 	rem := b.remaining()
 
 	// This value's actual length is encoded as a separate varUint.
-	if length == 0x0E {
+	if lengthIsNibble && length == 0x0E {
 		var lenghtOfRemaining uint64
 		length, lenghtOfRemaining, err = b.readVarUintLen(rem)
 		if err != nil {
